@@ -131,11 +131,11 @@ func c10Body(sc *WF) Verdict {
 		}
 		tn := xn.snapshot()[rn.Lo:rn.Hi]
 		tf := xf.snapshot()[rf.Lo:rf.Hi]
-		// every inner leaf sees the parent's store
-		for _, e := range tn {
-			if (e.Phase == "prep" || e.Phase == "post") && e.Store != rn.Store {
-				return bad("C10:store-identity", "%s ran on store %p, the outermost flow was given %p", e, e.Store, rn.Store)
-			}
+		// every inner node runs on the same shared store as its parent's nodes (established
+		// behaviourally by the executor: a write through one callback's store is visible through
+		// the previous callback's store and vice versa; identical pointers are the trivial case)
+		if xn.storeSplit != "" {
+			return bad("C10:store-identity", "%s", xn.storeSplit)
 		}
 		sn, sf := traceStrings(tn), traceStrings(tf)
 		if strings.Join(sn, " ") != strings.Join(sf, " ") {
@@ -190,10 +190,8 @@ func c10Recursive(sc *WF) Verdict {
 			return bad("C10:panic", "recursive arrangement panicked: %s", rr.Panic)
 		}
 		tr := x.snapshot()[rr.Lo:rr.Hi]
-		for _, e := range tr {
-			if (e.Phase == "prep" || e.Phase == "post") && e.Store != rr.Store {
-				return bad("C10:store-identity", "%s ran on store %p, the outermost flow was given %p", e, e.Store, rr.Store)
-			}
+		if x.storeSplit != "" {
+			return bad("C10:store-identity", "%s", x.storeSplit)
 		}
 		if !sameShape(tr, mr.Trace) {
 			return bad("C10:recursive", "run %d: a flow nested inside itself ran %v, the reference interpreter %v", r, traceStrings(tr), modelStrings(mr.Trace))
